@@ -69,6 +69,15 @@ class Lib:
 
     # ------------------------------------------------------------------ attribute access on non-repo values
     def getattr(self, ctx, o, name: str):
+        if isinstance(o, V.FractionV):
+            if name == "denominator":
+                d = self.e.uf("frac!den", z3.RealSort(), z3.IntSort())(o.term)
+                ctx.assume(z3.If(z3.IsInt(o.term), d == 1, d >= 2))
+                return d
+            if name == "numerator":
+                n = self.e.uf("frac!num", z3.RealSort(), z3.IntSort())(o.term)
+                ctx.assume(z3.Implies(z3.IsInt(o.term), z3.ToReal(n) == o.term))
+                return n
         if isinstance(o, V.ExtModule):
             return V.Builtin(o.name + "." + name)
         if isinstance(o, V.Builtin) and o.bound is None:
@@ -81,6 +90,8 @@ class Lib:
             if ctx.decide(o.is_none):
                 raise self.raise_ext("AttributeError")
             return self.e.getattr(ctx, o.val, name)
+        if isinstance(o, V.BytesOf):
+            return V.Builtin("method." + name, bound=o)
         if isinstance(o, V.EnumV):
             if name == "value":
                 return o.term
@@ -93,10 +104,14 @@ class Lib:
             raise self.raise_ext("AttributeError")
         raise EngineLimit("attribute %s of %r" % (name, o))
 
-    def raise_ext(self, name: str):
+    def raise_ext(self, name: str, why: str = ""):
         from .symexec import PyRaise
+        import traceback
 
-        return PyRaise(ExcVal(V.ExtClass(name)))
+        e = ExcVal(V.ExtClass(name))
+        fr = traceback.extract_stack(limit=3)[0]
+        e.fields["__origin__"] = why or ("library model %s:%d (%s)" % (fr.filename.split("/")[-1], fr.lineno, fr.name))
+        return PyRaise(e)
 
     def exc_attr(self, ctx, exc: ExcVal, name: str):
         if name in exc.fields:
@@ -157,6 +172,8 @@ class Lib:
     # ------------------------------------------------------------------ arithmetic
     def binop(self, ctx, op, a, b):
         e = self.e
+        if isinstance(op, ast.Mod) and (isinstance(a, str) or (isinstance(a, z3.ExprRef) and z3.is_string(a))):
+            return V.Opaque("formatted string")
         # operator dispatch to repository classes
         if isinstance(a, Obj) or isinstance(b, Obj):
             return self.obj_binop(ctx, op, a, b)
@@ -517,7 +534,16 @@ class Lib:
         raise EngineLimit("exception method %s" % name)
 
     # -- simple ones
+    def utf8_len(self, ctx, s):
+        n = self.e.uf("utf8len", z3.StringSort(), z3.IntSort())(s)
+        first = z3.StrToCode(z3.SubString(s, 0, 1))
+        ctx.assume(z3.And(n >= z3.Length(s), n <= 4 * z3.Length(s),
+                          (n == 1) == z3.And(z3.Length(s) == 1, first < 128)))
+        return n
+
     def bi_len(self, ctx, x):
+        if isinstance(x, V.BytesOf):
+            return self.utf8_len(ctx, x.s)
         if isinstance(x, PyList):
             return len(x.items)
         if isinstance(x, (tuple, str)):
@@ -838,6 +864,16 @@ class Lib:
     def bi_ord(self, ctx, c):
         if isinstance(c, str) and len(c) == 1:
             return ord(c)
+        if isinstance(c, V.BytesOf):
+            # ord(bytes) requires a single byte (TypeError otherwise); a single byte is an ASCII code point
+            n = self.utf8_len(ctx, c.s)
+            if ctx.decide(n != 1):
+                raise self.raise_ext("TypeError")
+            return z3.StrToCode(z3.SubString(c.s, 0, 1))
+        if isinstance(c, z3.ExprRef) and z3.is_string(c):
+            if ctx.decide(z3.Length(c) != 1):
+                raise self.raise_ext("TypeError")
+            return z3.StrToCode(c)
         raise EngineLimit("ord")
 
     def bi_chr(self, ctx, i):
@@ -861,10 +897,41 @@ class Lib:
             return x
         raise EngineLimit("math.ceil of a symbolic value")
 
+    def concretize(self, ctx, t, limit=140):
+        """Case split a symbolic integer whose range under the path condition is small (finite instantiation)."""
+        if isinstance(t, int):
+            return t
+        from .symexec import has_quantifier, PathEnd
+
+        for _ in range(limit):
+            s = z3.Solver()
+            s.set("timeout", 2000)
+            for p in ctx.pc:
+                if not has_quantifier(p):
+                    s.add(p)
+            if s.check() != z3.sat:
+                raise PathEnd()
+            v = s.model().eval(t, model_completion=True)
+            if not z3.is_int_value(v):
+                raise EngineLimit("cannot concretize %s" % t)
+            if ctx.decide(t == v):
+                return v.as_long()
+        raise EngineLimit("value of %s is not confined to a small range at a point where a concrete integer is needed" % t)
+
     def bi_math_log2(self, ctx, x):
-        if isinstance(x, int) and x > 0:
+        if isinstance(x, V.FloatV):
+            return V.FloatV(math.log2(x.value))
+        x = self.concretize(ctx, x)
+        if x > 0:
             return V.FloatV(math.log2(x))
-        raise EngineLimit("math.log2 of a symbolic value")
+        raise self.raise_ext("ValueError", "math.log2 of a non-positive number")
+
+    def bi_round(self, ctx, x, nd=None):
+        if isinstance(x, V.FloatV) and nd is None:
+            return round(x.value)
+        if isinstance(x, int):
+            return x
+        raise EngineLimit("round of a symbolic value")
 
     def bi_itertools_product(self, ctx, *args):
         if len(args) == 1 and isinstance(args[0], V.StarArgs):
@@ -905,6 +972,12 @@ class Lib:
 
     def bi_typing_cast(self, ctx, t, v):
         return v
+
+    def bi_typing_NamedTuple(self, ctx, name, fields):
+        names = [f[0] for f in self.e.iter_concrete(ctx, fields)]
+        return V.RecClass(name, names)
+
+    bi_NamedTuple = bi_typing_NamedTuple
 
     # ------------------------------------------------------------------ methods of builtin values
     def call_method(self, ctx, o, name, args, kwargs):
@@ -1062,7 +1135,20 @@ class Lib:
         raise EngineLimit("split of a symbolic string")
 
     def m_str_encode(self, ctx, o, enc="utf8"):
-        raise EngineLimit("str.encode")
+        # ASSUMED (CPython): str.encode('utf8') raises UnicodeEncodeError iff the string contains a surrogate
+        # code point (U+D800..U+DFFF); otherwise every code point < 0x80 becomes exactly one byte, others 2..4 bytes.
+        if isinstance(o, str):
+            try:
+                o.encode(enc)
+            except UnicodeEncodeError:
+                raise self.raise_ext("UnicodeEncodeError")
+            return V.BytesOf(z3.StringVal(o))
+        i = z3.FreshConst(z3.IntSort(), "ci")
+        code = lambda k: z3.StrToCode(z3.SubString(o, k, 1))
+        has_surrogate = z3.Exists([i], z3.And(0 <= i, i < z3.Length(o), code(i) >= 0xD800, code(i) <= 0xDFFF))
+        if ctx.decide(has_surrogate):
+            raise self.raise_ext("UnicodeEncodeError")
+        return V.BytesOf(o)
 
     def m_str_format(self, ctx, o, *a, **k):
         return V.Opaque("formatted")
